@@ -23,6 +23,8 @@ BASE_FLAGS = ['-std=gnu++11', '-O1', '-fno-vectorize', '-fno-slp-vectorize', '-f
 LOWERING = {
     'scalar': [],  # code path of the `debug` build: no AVX2 inline asm, assert() active
     'avx2': ['-mavx2', '-mfma', '-DNDEBUG'],  # code path of the `optim` build (-march=native on AVX2 hosts)
+    # same code path as `scalar`, calls kept out of line so that a callee can be replaced by its contract (modular queries)
+    'scalar-noinline': ['-fno-inline'],
 }
 HOOK_DEFINE = '-DTFHE_VERIF'
 
@@ -361,7 +363,7 @@ def native_build(q, work, prep, sanitize=False):
     must(['g++', '-o', exeA] + objs + [rto, '-lm', '-lpthread', '-no-pie', '-Wl,--unresolved-symbols=ignore-all', '-Wl,-z,lazy'])
     exeB = os.path.join(qd, 'native_gen')
     ob = os.path.join(qd, 'q.native.o')
-    must(['gcc', '-std=gnu11', '-O1', '-w', '-I' + os.path.join(HERE, 'include'), '-c', prep['c'], '-o', ob] + LOWERING[q.lowering][:2])
+    must(['gcc', '-std=gnu11', '-O1', '-w', '-I' + os.path.join(HERE, 'include'), '-c', prep['c'], '-o', ob] + [x for x in LOWERING[q.lowering] if x.startswith('-m')])
     must(['g++', '-o', exeB, ob, rto, '-lm'])
     return exeA, exeB
 
